@@ -70,6 +70,7 @@ def pval(v, cfg='patched'):
     if k == 'S': return '(VSym "%s")' % v[1]
     if k == 'B': return '(VBool %s)' % fw.cbool(v[1])
     if k == 'N': return 'VNone'
+    if k == 'P': return '(VParams %s)' % pparams(v[1])
     if k == 'SC': return '(scale_key %s %s)' % (cfg, pscale(v[1], cfg))
     raise ValueError(v)
 
@@ -159,6 +160,23 @@ def item_keys(case, res, cfg):
         elif v[0] == 'B': asked.append('("%s", 2%%nat, %s)' % (k, pnum(v)))
         elif v[0] == 'N': asked.append('("%s", 3%%nat, (I 0%%Z))' % k)
     return 'keys_ok %s %s [%s]' % (pkern(res['tables']), pevent(ev, cfg), '; '.join(asked))
+
+
+def peops(ops):
+    out = []
+    for op in ops:
+        if op[0] == 'play': out.append('EPlay')
+        elif op[0] == 'set': out.append('ESet "%s" %s' % (op[1], pval(op[2])))
+        elif op[0] == 'del': out.append('EDel "%s"' % op[1])
+        elif op[0] == 'wait': out.append('EWait %s' % fq(op[1]))
+    return '[' + '; '.join(out) + ']'
+
+
+def item_replay(case, res):
+    msgs, _ = canon_msgs(res['msgs'])
+    return 'replay_ok %s the_lib %s %s %s %s [%s]' % (
+        pkern(res['tables']), fq(case.get('latency', '0/1')), fq(case.get('start', '0/1')), pevent(case['keys']),
+        peops(case['ops']), '; '.join(pbundle(m) for m in msgs))
 
 
 def pctl(case):
@@ -468,6 +486,56 @@ def has_kind(t, kind):
     return ('"%s"' % kind) in json.dumps(t)
 
 
+REPLAY_KEYS = {
+    'amp': lambda rng: rng.choice([F(Fraction(rng.randint(0, 16), 16)), I(0), I(1)]),
+    'pan': lambda rng: numval(rng, -1, 1),
+    'freq': lambda rng: numval(rng, 50, 900),
+    'midinote': lambda rng: I(rng.randint(40, 90)),
+    'degree': lambda rng: I(rng.randint(-7, 14)),
+    'harmonic': lambda rng: I(rng.randint(1, 3)),
+    'detune': lambda rng: numval(rng, 0, 4),
+    'cutoff': lambda rng: I(rng.randint(100, 5000)),
+    'out': lambda rng: I(rng.randint(0, 3)),
+    'sustain': lambda rng: rng.choice([F('1/8'), F(1), I(2), F(0)]),
+    'dur': lambda rng: rng.choice(DURS),
+    'legato': lambda rng: rng.choice([F('1/2'), F(1), F('1/4'), I(1)]),
+    'instrument': lambda rng: ['S', rng.choice(['c14a', 'c14b', 'c14c'])],
+    'group': lambda rng: rng.choice([I(0), I(1), I(5)]),
+    'send_gate': lambda rng: ['B', rng.random() < 0.5],
+}
+
+
+def gen_replay_case(rng):
+    """an event object that is played, changed (keys set, added, removed), played again; copies of a played event"""
+    keys = {'instrument': ['S', rng.choice(['c14a', 'c14a', 'c14b', 'c14c'])], 'legato': rng.choice([F('1/2'), F(1), F('1/4')])}
+    for k in rng.sample(sorted(REPLAY_KEYS), rng.randint(1, 5)):
+        keys[k] = REPLAY_KEYS[k](rng)
+    if rng.random() < 0.15:      # a control list given by the user: used as it is until the event has been played once
+        keys['msg_params'] = ['P', [[k, REPLAY_KEYS[k](rng)] for k in rng.sample(['freq', 'amp', 'pan', 'cutoff'], rng.randint(1, 3))]]
+    ops = [['play']]
+    for _ in range(rng.randint(1, 3)):
+        ops.append(['wait', str(rng.choice([Fraction(1, 4), Fraction(1, 2), Fraction(1), Fraction(0)]))])
+        if rng.random() < 0.3:
+            ops.append(['copy'])
+        for _ in range(rng.randint(0, 3)):
+            k = rng.choice(sorted(REPLAY_KEYS))
+            if rng.random() < 0.2 and k not in ('instrument', 'legato'):
+                ops.append(['del', k])
+            else:
+                ops.append(['set', k, REPLAY_KEYS[k](rng)])
+        ops.append(['play'])
+    case = {'kind': 'replay', 'keys': keys, 'ops': ops,
+            'latency': str(rng.choice([Fraction(0), Fraction(1, 4), Fraction(1, 8)])),
+            'start': str(rng.choice([Fraction(0), Fraction(1, 2)]))}
+    pts = {Fraction(60)}
+    for src in [keys] + [{op[1]: op[2]} for op in ops if op[0] == 'set']:
+        for k, v in src.items():
+            if k == 'midinote' and v[0] in ('I', 'F'): pts.add(Fraction(v[1]))
+            if k == 'degree' and v[0] in ('I', 'F'): pts.add(60 + ref.degree_to_key(ref.MAJOR, Fraction(v[1])))
+    case['points'] = {'midicps': sorted('%d/%d' % (x.numerator, x.denominator) for x in pts)}
+    return case
+
+
 def gen_alias_case(rng):
     while True:
         case = gen_pat_case(rng)
@@ -538,6 +606,7 @@ def gen_cases(ctx):
     for _ in range(ctx.n(40, 400)):
         pats.insert(ctx.rng.randrange(len(pats)), gen_raise_case(ctx.rng))
     cases += pats
+    cases += [gen_replay_case(ctx.rng) for _ in range(ctx.n(150, 1500))]
     cases += [gen_alias_case(ctx.rng) for _ in range(ctx.n(60, 600))]
     for g in range(ctx.n(30, 300)):
         cases += gen_twice_group(ctx.rng, g)
@@ -622,6 +691,21 @@ def correspond(ctx):
             continue
         if k.get('role') in ('first', 'second'):
             groups.setdefault(k['grp'], {})[k['role']] = (k, r)
+        if k['kind'] == 'replay':
+            if not tables_ok(r) or not encodable(r['msgs']):
+                c.count('cases:skipped(kernel out of domain or non-numeric argument)')
+                continue
+            c.count('event-object-replayed:%d-plays' % sum(1 for o in k['ops'] if o[0] == 'play'))
+            if any(o[0] == 'copy' for o in k['ops']): c.count('event-object-copied')
+            if 'msg_params' in k['keys']: c.count('user-msg_params')
+            _, stale = canon_msgs(r['msgs'])
+            if stale:
+                c.failures.append(Failure('correspondence', 'a /s_new reuses a node id or a /n_set refers to an unknown node: %s' % stale,
+                                          replay={'case': k, 'impl': r['msgs']}))
+            c.nontriv(('replay', k['keys'], k['ops']))
+            items.append(item_replay(k, r))
+            keep.append((k, r))
+            continue
         if k['kind'] == 'pat' and (not tables_ok(r) or not encodable(r['msgs'])):
             c.count('cases:skipped(kernel out of domain or non-numeric argument)')
             continue
@@ -682,7 +766,11 @@ def correspond(ctx):
     for e in errs:
         c.failures.append(Failure('correspondence', 'coq evaluation of C14 cases failed: ' + e[-1500:]))
     if bad:
-        items_u = [(item_keys if keep[i][0]['kind'] == 'keys' else item_pat)(keep[i][0], keep[i][1], 'unpatched') for i in bad]
+        def item_u(k, r):
+            if k['kind'] == 'keys': return item_keys(k, r, 'unpatched')
+            if k['kind'] == 'replay': return item_replay(k, r)
+            return item_pat(k, r, 'unpatched')
+        items_u = [item_u(keep[i][0], keep[i][1]) for i in bad]
         bad_u, errs_u = fw.check_shards(ctx, 'casesu', HEADER, items_u, BODY, shard=max(10, len(items_u) // 16 + 1))
         bad_u = set(bad_u)
         c.count('mismatch:patched-model', len(bad))
@@ -779,6 +867,35 @@ def oracle_pat(case, res):
     return bad
 
 
+def oracle_replay(case, res):
+    """every play of an event object carries the event's CURRENT value for each control of its instrument it defines
+    (freq is always defined; its value is left to the model: play() stores the detuned frequency back)"""
+    keys = dict(case['keys'])
+    played = False
+    want = []
+    for op in case['ops']:
+        if op[0] == 'set': keys[op[1]] = op[2]
+        elif op[0] == 'del': keys.pop(op[1], None)
+        elif op[0] == 'play':
+            instr = keys.get('instrument', ['S', 'default'])[1]
+            if 'msg_params' in keys and not played:
+                want.append([(k, Fraction(v[1])) for k, v in keys['msg_params'][1]])
+            else:
+                want.append([(c, None if c == 'freq' else Fraction(keys[c][1])) for c in ref.CONTROLS.get(instr, [])
+                             if c != 'gate' and (c == 'freq' or (c in keys and keys[c][0] in ('I', 'F', 'B')))])
+            played = True
+    have = [[(k, Fraction(v[1])) for k, v in m['params']] for m in res['msgs'] if m['cmd'] == 's_new']
+    bad = []
+    if len(want) != len(have):
+        bad.append('expected %d /s_new, got %d (%s)' % (len(want), len(have), '; '.join(res.get('errors', []))[:200]))
+    for i, (w, h) in enumerate(zip(want, have)):
+        if [k for k, _ in w] != [k for k, _ in h] or any(a[1] is not None and not close(b[1], a[1]) for a, b in zip(w, h)):
+            bad.append('play %d: expected controls %s, got %s' % (i, [(k, None if v is None else float(v)) for k, v in w],
+                                                                  [(k, float(v)) for k, v in h]))
+            break
+    return bad
+
+
 def oracle_scale(case, res):
     s = case['scale']
     bad = []
@@ -793,6 +910,7 @@ def violations(case, res):
     try:
         if case['kind'] == 'keys': return oracle_keys(case, res)
         if case['kind'] == 'scale': return oracle_scale(case, res)
+        if case['kind'] == 'replay': return oracle_replay(case, res)
         return oracle_pat(case, res)
     except Exception as e:       # the oracle covers the documented forward chains / simple compositions only
         return []
@@ -804,7 +922,7 @@ def search(ctx, failures):
     bat = battery()
     cases = [c for _, c in bat]
     extra = [f.replay['case'] for f in failures if f.replay.get('case')]
-    allgen = [k for k in getattr(ctx, 'c14', ([], []))[0] if k['kind'] in ('keys', 'pat')]
+    allgen = [k for k in getattr(ctx, 'c14', ([], []))[0] if k['kind'] in ('keys', 'pat', 'replay')]
     pool = allgen[::max(1, len(allgen) // ctx.n(500, 3000))]
     allc = cases + extra + pool
     res = run_impl(ctx, allc)
